@@ -388,6 +388,10 @@ func registerFSWorld(e *Engine) {
 			}
 			st.fs().Files[idx].Exists = false
 			st.fs().Files[idx].Data = nil
+			if p := st.fs().Files[idx].Path; p.Const {
+				// unlinking a bound unix socket orphans its listener: nobody can connect through the path any more
+				delete(st.Ghost, "listening:"+p.S)
+			}
 			return Iface{}
 		})
 		return withCrash(c, crashed, res)
